@@ -52,8 +52,13 @@ def judge(ctx, what, got_obj, E, wit):
 
 def run_case(ctx, rng, idx):
     kind = "D" if idx % 3 == 2 else "H"
-    cfg = history.Cfg(rng, kind)
-    cfg.n_ops = rng.randint(8, 40)
+    big = idx in (0, 2) or (ctx.tier == "thorough" and idx % 500 in (9, 11))
+    cfg = history.Cfg(rng, kind, big=big)
+    if big:
+        ctx.event("big-source")
+        cfg.n_ops = rng.randint(150, 300)
+    else:
+        cfg.n_ops = rng.randint(8, 40)
     cfg.invalid_rate = 0.0
     cfg.avoid = {"clear", "copy"}
     raw = []
@@ -83,7 +88,8 @@ def run_case(ctx, rng, idx):
     nontrivial = len(S.edges) >= 2 and any(S.nodes.values())
 
     def wit(sel=None):
-        return {"source": S.describe(), "kind": kind, "selection": repr(sel)[:300], "build_ops": trace[-12:]}
+        return {"source": S.describe() if len(S.edges) <= 30 else {"nodes": len(S.nodes), "edges": len(S.edges)}, "kind": kind,
+                "selection": repr(sel)[:300], "build_ops": trace[-12:]}
 
     def unchanged(what):
         S1 = observe(h)
